@@ -1235,9 +1235,12 @@ fn gen_bernoulli(rng: &mut Rng, sz: &Sizes) -> Case {
     let pos = class_pos(&y);
     let kk = pos.iter().max().unwrap() + 1;
     let prob: Vec<Vec<f64>> = (0..kk).map(|_| (0..p).map(|_| *rng.pick(&[0.0, 0.2, 0.5, 0.8, 1.0])).collect()).collect();
-    let mode = rng.below(4);
+    let mode = rng.below(5);
     let (binarize, fam) = match mode {
         0 => (None, "bernoulli:binary-no-threshold"),
+        // raw 0/1 data (training rows AND every query) under a threshold outside [0,1): binarisation maps
+        // every feature to off (t >= 1) or on (t < 0), it is NOT the identity on data that already looks binary
+        4 => (Some(*rng.pick(&[1.0, 1.5, 2.0, -0.5, -1.0, -0.001])), "bernoulli:binary-data-threshold-outside-unit"),
         1 => (Some(0.0), "bernoulli:default-threshold-0"),
         2 => (Some(*rng.pick(&[0.5, -0.25, 1.0, 2.5])), "bernoulli:lattice-threshold"),
         _ => (Some(rng.uniform(-1.0, 1.0)), "bernoulli:real-threshold"),
@@ -1245,7 +1248,7 @@ fn gen_bernoulli(rng: &mut Rng, sz: &Sizes) -> Case {
     let th = binarize.unwrap_or(0.5);
     let value = |rng: &mut Rng, one: bool| -> f64 {
         match mode {
-            0 => if one { 1.0 } else { 0.0 },
+            0 | 4 => if one { 1.0 } else { 0.0 },
             1 => if one { *rng.pick(&[1.0, 2.0, 0.5, 7.25]) } else { *rng.pick(&[0.0, -1.0, -0.5, 0.0]) },
             // lattice values, including the threshold itself (not greater => 0)
             2 => if one { th + rng.int(1, 8) as f64 / 4.0 } else { th - rng.int(0, 8) as f64 / 4.0 },
